@@ -81,6 +81,11 @@ class OpGen:
         self.fragments = {}  # name -> {"type": str, "text": str, "keys": {canon: sig}, "deps": set, "inline": bool}
         self.frag_order = []
         self.frag_use = {}
+        self.frag_mode_here = {}
+        self._cur_narrow_spread = False
+        self._cur_narrow_targets = set()
+        self._cur_guarded = set()
+        self._guard = None
         self.vars = None  # current operation's variable definitions
         self.var_keys = None
         self.composites = [
@@ -253,7 +258,14 @@ class OpGen:
                 if inline_depth > 0 and not d.enabled("sel.nested_inline"):
                     continue
                 mark = self._mark()
-                sub = self.selection_set(t, depth + 1, scope, in_fragment, inline_depth + 1)
+                top_guard = in_fragment is not None and depth == 1 and inline_depth == 0 and self._guard is None
+                if top_guard:
+                    self._guard = t.name  # everything below is only reached for objects this condition applies to
+                try:
+                    sub = self.selection_set(t, depth + 1, scope, in_fragment, inline_depth + 1)
+                finally:
+                    if top_guard:
+                        self._guard = None
                 if sub is None:
                     self._rollback(mark)
                     continue
@@ -274,8 +286,18 @@ class OpGen:
                     if inline_depth == 0:
                         scope["__inl_direct"] = True
         # spreads of already generated fragments
-        if self.fragments and d.bool(max(self.frag_p, 0.8) if in_fragment is not None else self.frag_p):
-            for fname in d.sample(self.frag_order, d.int(1, 2)):
+        applicable = [f for f in self.frag_order
+                      if f != in_fragment and relation(self.schema, parent, self.schema.type_map[self.fragments[f]["type"]])]
+        if applicable and d.bool(max(self.frag_p, 0.8) if in_fragment is not None else self.frag_p):
+            chosen_frags = d.sample(applicable, d.int(1, 3))
+            if d.bool(0.3):
+                # also try one dependency of a chosen fragment at the same level (fragment "triangle")
+                for f0 in list(chosen_frags):
+                    deps0 = sorted(self.fragments[f0]["alldeps"] & set(applicable))
+                    if deps0:
+                        chosen_frags.append(d.choice(deps0))
+                        break
+            for fname in dict.fromkeys(chosen_frags):
                 if fname == in_fragment:
                     continue
                 fr = self.fragments[fname]
@@ -298,12 +320,35 @@ class OpGen:
                     continue
                 if inline_depth > 0 and fr["narrowing_deep"] and not d.enabled("sel.nested_inline"):
                     continue
-                if in_fragment is not None and rel != "same" and is_abstract_type(parent) \
-                        and not d.enabled("frag.narrowing_spread_inside"):
+                # KF-C01-7 lives where a fragment containing a narrowing spread is generated as a CLASS (used as
+                # mixin): the narrowing spread may be written, the restriction is on how the outer fragment is used
+                if mode == "mixin" and fr.get("narrowing_spread_deep") and not d.enabled("frag.narrowing_spread_inside"):
                     continue
-                if any(o in fr["alldeps"] or fname in self.fragments[o]["alldeps"] for o in spread_here) \
+                # KF-C01-6: an inner narrowing spread that applies to none of the classes of this position is dropped
+                # but stays referenced; it is safe where this position is an object the inner fragment applies to
+                if mode == "unpacked" and isinstance(parent, GraphQLObjectType) and fr.get("guards"):
+                    ok = all(g == parent.name or (is_abstract_type(self.schema.type_map[g]) and self.schema.is_sub_type(self.schema.type_map[g], parent))
+                             for g in fr["guards"])
+                    if not ok and not d.enabled("sel.spread_inside_inline_narrowing"):
+                        continue
+                if mode == "unpacked" and fr.get("narrow_targets"):
+                    safe = isinstance(parent, GraphQLObjectType) and all(
+                        tn == parent.name or (is_abstract_type(self.schema.type_map[tn]) and self.schema.is_sub_type(self.schema.type_map[tn], parent))
+                        for tn in fr["narrow_targets"])
+                    if not safe and not d.enabled("sel.spread_inside_inline_narrowing"):
+                        continue
+                    if safe:
+                        d.tag("op.unpacked_with_inner_mixin")
+                # KF-C01-9 (inconsistent MRO) needs a base class listed BEFORE a class derived from it; bases are
+                # listed in sorted fragment-name order
+                def _bad_order(a, b):
+                    base, derived = (a, b) if a in self.fragments[b]["alldeps"] else ((b, a) if b in self.fragments[a]["alldeps"] else (None, None))
+                    return base is not None and base < derived
+                if mode == "mixin" and any(_bad_order(o, fname) for o in spread_here if self.frag_mode_here.get(o) == "mixin") \
                         and not d.enabled("sel.spread_redundant_dep"):
                     continue
+                if mode == "mixin" and any(o in fr["alldeps"] or fname in self.fragments[o]["alldeps"] for o in spread_here):
+                    d.tag("op.fragment_triangle")
                 if rel == "same" and is_abstract_type(parent) and fr["narrowing_deep"] and not fr["inline"] \
                         and not d.enabled("sel.spread_same_abs_with_narrowing"):
                     continue
@@ -337,6 +382,13 @@ class OpGen:
                 for x in affected:
                     self.frag_use.setdefault(x, mode)
                 spread_here.append(fname)
+                self.frag_mode_here[fname] = mode
+                if in_fragment is not None and rel != "same" and is_abstract_type(parent):
+                    self._cur_narrow_spread = True
+                    self._cur_narrow_targets.add(fr["type"])
+                if in_fragment is not None and fr.get("narrowing_spread_deep"):
+                    self._cur_narrow_spread = True
+                    self._cur_narrow_targets.update(fr.get("narrow_targets", ()))
                 if mode == "mixin":
                     same_spread = True
                 if creates_narrowing:
@@ -352,6 +404,9 @@ class OpGen:
                         d.tag("op.fragment_chain3")
                 if in_fragment is not None:
                     self._cur_deps.add(fname)
+                    if self._guard is not None:
+                        self._cur_guarded.add(self._guard)
+                    self._cur_guarded.update(fr.get("guards", ()))
                     if rel != "same":
                         self._cur_narrow = True
         if not items:
@@ -368,13 +423,33 @@ class OpGen:
     def gen_fragments(self, n):
         d = self.d
         names = pick_names(d, n, set(self._taken), [(1, FRAG_NAMES)])
-        for name in names:
-            self._taken.add(canon(name))
+        roots = (self.desc.query, self.desc.mutation, self.desc.subscription)
+        types = []
+        abstract = [c for c in self.composites if is_abstract_type(c) and c.name not in roots]
+        if abstract and len(names) >= 2 and d.bool(0.6):
+            # family mode: fragments on member objects first, then on the abstract type (which can spread them),
+            # the rest anywhere - fragment graphs need related types to be interesting
+            fam = d.choice(abstract)
+            members = sorted(self.schema.get_possible_types(fam), key=lambda x: x.name)
+            k_obj = d.int(1, min(2, len(names) - 1))
+            for _ in range(k_obj):
+                types.append(d.choice(members))
+            for _ in range(d.int(1, min(2, len(names) - len(types)))):
+                types.append(fam if d.bool(0.8) else d.choice(abstract))
+            d.tag("frag.family_mode")
+        while len(types) < len(names):
             t = d.choice(self.composites)
-            if t.name in (self.desc.query, self.desc.mutation, self.desc.subscription) and d.bool(0.7):
+            if t.name in roots and d.bool(0.7):
                 t = d.choice(self.composites)
+            types.append(t)
+        for name, t in zip(names, types):
+            self._taken.add(canon(name))
             self._cur_deps = set()
             self._cur_narrow = False
+            self._cur_narrow_spread = False
+            self._cur_narrow_targets = set()
+            self._cur_guarded = set()
+            self._guard = None
             scope = {}
             self.vars = None  # fragments use literals only (variables would have to be declared by every user)
             sub = self.selection_set(t, 1, scope, in_fragment=name)
@@ -397,6 +472,9 @@ class OpGen:
                 "inline": bool(scope.get("__inl_direct")),  # a top-level inline fragment: always unpacked
             }
             me = self.fragments[name]
+            me["narrowing_spread_deep"] = self._cur_narrow_spread
+            me["narrow_targets"] = set(self._cur_narrow_targets)
+            me["guards"] = set(self._cur_guarded)  # type conditions under which (some of) its dependencies are reached
             me["narrowing_deep"] = me["inline"] or self._cur_narrow or any(
                 self.fragments[x]["narrowing_deep"] for x in me["deps"]
             )
